@@ -203,7 +203,7 @@ func runC10(args []string) int {
 	rep.Rule = "reader case: non-trivial when some line carries a pint control comment and the masked output differs from the input " +
 		"or a comment/diagnostic is collected; oracle case: non-trivial when the base file yields >= 1 rule or problem and the excluded payload is non-empty"
 	wd, _ := os.Getwd()
-	cw := newCaseWriter(wd, "Run.C10", 300)
+	cw := newCaseWriter(wd, "Run.C10", 120) // shards small enough to evaluate well within the per-file timeout on a loaded machine
 	cw.preamble = scPreamble
 	id := 0
 	keep := n <= 2000
